@@ -19,7 +19,7 @@ from . import propagation as P
 DICT = "case/system/blockMeshDict"
 VTK = "case/debug.vtk"
 SELFTEST_ARG = {"pid": "C06", "k": 2}
-TIERS = {"quick": (1300, 2, 40), "thorough": (20000, 4, 1500)}
+TIERS = {"quick": (1300, 2, 100), "thorough": (20000, 4, 1500)}
 PATCHES = ["inlet", "outlet", "walls", "top", "sym", "atmosphere"]
 GEOMS = {"terrain": ["type triSurfaceMesh", "name terrain", 'file "terrain.stl"'],
          "ball": ["type sphere", "origin (0 0 0)", "radius 5"],
